@@ -122,15 +122,15 @@ def _noise_op(rng, kind, base, i):
     elif kind in ('obs-chi2-default', 'obs-gauss-default'):
         pass
     else:
-        op.update(tables=_tables(rng, kind, base), as_list=bool((i // 3) % 2))
+        op.update(tables=_tables(rng, kind, base), as_list=bool(common.stratum(i, 111, 2)))
     return op
 
 
 def _frame_case(rng, i, tier):
-    kind = KINDS[i % len(KINDS)]
-    cls, prod = DFDT[(i // len(KINDS)) % len(DFDT)]
-    hist = HIST[(i // 7) % len(HIST)]
-    prior = PRIOR[(i // 3) % len(PRIOR)]
+    kind = common.stratum(i, 112, KINDS)
+    cls, prod = common.stratum(i, 113, DFDT)
+    hist = common.stratum(i, 114, HIST)
+    prior = common.stratum(i, 115, PRIOR)
     if prod is None:
         while True:
             df, dt = float(common.pick(rng, common.UGLY_DF)), float(common.pick(rng, common.UGLY_DT))
@@ -151,7 +151,7 @@ def _frame_case(rng, i, tier):
     if tch * fch > 300000:
         hist = hist[:3]
     base = float(10 ** rng.uniform(-3, 9))
-    if i % 13 == 5:
+    if common.stratum(i, 116, 13) == 5:
         base = float(10 ** rng.uniform(-13, -9))      # every parameter far below 1e-8 in absolute value (still a valid noise level)
     ops = []
     first = True
@@ -167,12 +167,12 @@ def _frame_case(rng, i, tier):
         else:
             ops.append(dict(op='zero'))
     return dict(what='frame', fchans=fch, tchans=tch, df=df, dt=dt, fch1=float(common.pick(rng, common.UGLY_FCH1[:6])),
-                asc=bool((i // 2) % 2), prior=prior, base=base, ops=ops, sub=int(rng.integers(2 ** 31)))
+                asc=bool(common.stratum(i, 117, 2)), prior=prior, base=base, ops=ops, sub=int(rng.integers(2 ** 31)))
 
 
 def _voltage_case(rng, j, tier):
-    vk = VKINDS[j % len(VKINDS)]
-    pols = 1 + (j // len(VKINDS)) % 2
+    vk = common.stratum(j, 118, VKINDS)
+    pols = 1 + common.stratum(j, 119, 2)
     scale = float(10 ** rng.uniform(-2, 3))
 
     def ns():
@@ -180,7 +180,7 @@ def _voltage_case(rng, j, tier):
         return (float(rng.normal() * scale if r < 0.5 else 0.0), float(0.0 if r > 0.95 else scale * 10 ** rng.uniform(-1, 1)))
 
     c = dict(what='voltage', vkind=vk, pols=pols, sr=float(common.pick(rng, [3e9, 2.4e9, 1.7e8, 1e6])),
-             asc=bool(j % 2), sub=int(rng.integers(2 ** 31)),
+             asc=bool(common.stratum(j, 120, 2)), sub=int(rng.integers(2 ** 31)),
              n=int(common.pick(rng, [16384, 40000, 65536, 100001] if tier == 'quick' else [65536, 100001, 400000])))
     ops = []
     if vk.startswith('stream'):
